@@ -843,3 +843,37 @@ Definition roundtrip_ok (pkg : string) (objs : list mobject) : bool :=
   | Some text => match parse_idl text with IOk objs' => all2 same_object objs objs' | _ => false end
   | None => false
   end.
+
+(* ================= the repaired ParsePackage (design/C18.fix.self_referential_struct_crash.diff) ==========
+   RefType.Signature marks a reference that is asked for its signature while it is already being
+   resolved (the invalid struct name "recursive type: N") instead of recursing, and ParsePackage
+   refuses a package one of whose declared structures has such a signature.  A reference is
+   re-entered exactly when the unguarded recursion would not end, i.e. when the bounded resolution
+   [isig] runs out of fuel. *)
+Definition struct_resolves (sc : scope) (d : ival) : bool :=
+  match d with
+  | VStruct _ ms =>
+      let t := ITuple (map snd ms) in
+      match isig (sig_fuel sc t) sc t with Some _ => true | None => false end
+  | _ => true
+  end.
+
+Definition parse_idl_g (guard : bool) (s : string) : idl_result :=
+  match fst (parse_package s) with
+  | Ok root rest =>
+      if is_empty (skip_ws rest) then
+        match root with
+        | NVal (VPkg _ ds) =>
+            let sc := scope_of ds [] in
+            if guard && negb (forallb (struct_resolves sc) ds) then IErr
+            else match metas_of sc ds with
+                 | Some ms => IOk ms
+                 | None => if guard then IErr else ICrash
+                 end
+        | _ => IErr
+        end
+      else IErr
+  | Fail => IErr
+  | NoFuel => IFuel
+  | Hang => IHang
+  end.
